@@ -197,7 +197,9 @@ type CP string
 var cpWords = []string{"alpha", "alpine", "beta", "gamma", "alp ha"}
 
 func (c *CP) Complete(match string) []flags.Completion {
-	cur.callee("complete", match, nil)
+	if pe, ok := cur.callee("complete", match, nil).(panicErr); ok {
+		panic(pe.Error() + " in a Completer")
+	}
 	var out []flags.Completion
 	for _, w := range cpWords {
 		if strings.HasPrefix(w, match) {
